@@ -125,8 +125,8 @@ def tasks(tier, seed, selftest=False):
     # node identity for networks beyond the symbolic families: space_unique_key, translated from its current source, is decided
     # injective and item-order independent over all spaces of N variables (checks/c04_key_unit.py)
     for N in ((8, 31, 40) if q else (8, 31, 32, 40, 64, 96)):
-        T.append({"prop": PROP, "family": "-", "label": f"key-unit/N={N}", "timebox": 100 if q else 900, "seed": seed,
-                  "params": {"mode": "keyunit", "N": N}})
+        T.append({"prop": PROP, "family": "-", "label": f"key-unit/N={N}", "timebox": 30 if q else 200, "seed": seed,
+                  "params": {"mode": "keyunit", "N": N, "budget": 150 if q else 1500}})
     mdir = os.path.join(os.environ.get("VERIF_REPO", "/repo"), "models/bbm-bnet-inputs-true")
     paths = sorted(glob.glob(os.path.join(mdir, "*.bnet")), key=os.path.getsize)
     small, mid = paths[:120], paths[120:180 if q else 210]
